@@ -15,6 +15,23 @@
  */
 #include "env_aio.h"
 #include "env_printf.h"
+#if defined(PREPTX) && PREPTX == 1
+/* symbolic payload length: the payload copy is replaced by a probe that
+ * records how much would be copied (the copy itself is exercised with real
+ * bytes by the PREPTX == 2 queries) */
+#include <string.h>
+static size_t h_copied;
+static void *
+h_memcpy_probe(void *d, const void *s, size_t n)
+{
+	h_copied += n;
+	for (size_t i = 0; i < 4; i++)
+		if (i < n)
+			((unsigned char *) d)[i] = ((const unsigned char *) s)[i];
+	return d;
+}
+#define memcpy(d, s, n) h_memcpy_probe((d), (s), (n))
+#endif
 #include "supplemental/websocket/websocket.c"
 extern int    env_alloc_count, env_locks_held;
 extern size_t env_alloc_limit, env_alloc_last_req, env_alloc_last_refused;
@@ -79,7 +96,111 @@ close_code(nni_ws *ws)
 	return (u16) ((b0 << 8) | b1);
 }
 
-#ifdef FINISH
+#ifdef PREPTX
+/* C16 (vi) / C01: everything nng emits is well-formed - ws_frame_prep_tx.
+ * PREPTX 1: server role, ONE iov of SYMBOLIC length (0 .. 2^63), symbolic
+ *           fragment size, stream/message mode, text/binary, first/continuation:
+ *           FIN and opcode, payload length after the fragment-size policy,
+ *           minimal length encoding (7-bit / 16-bit / 64-bit big endian), no
+ *           mask bit, exactly len bytes copied.
+ * PREPTX 2: client role, TXLEN concrete (sweep across 125/126/127), payload
+ *           and mask key symbolic, two iovs split at the concrete point CUT: header
+ *           as above plus mask bit and key, payload = data XOR key. */
+#ifndef TXLEN
+#define TXLEN 0
+#endif
+#ifndef CUT
+#define CUT 0
+#endif
+void
+harness(void)
+{
+	nni_ws *ws = NULL;
+	nni_aio ua;
+	CHECK(ws_init(&ws) == 0 && ws != NULL, "ws_init");
+	ws->ready     = true;
+	ws->fragsize  = ND(usz);
+	ws->isstream  = ND(vbool);
+	ws->send_text = ND(vbool);
+	ws_frame *f   = NNI_ALLOC_STRUCT(f);
+	nni_aio_init(&ua, NULL, NULL);
+	size_t cnt = ND(usz);
+	nni_aio_bump_count(&ua, cnt);
+	f->aio = &ua;
+	nni_iov iov[2];
+	size_t  L;
+#if PREPTX == 1
+	static u8 small[8];
+	ws->server     = true;
+	L              = ND(usz);
+	ASSUME(L <= (SIZE_MAX >> 1));
+	iov[0].iov_buf = small;
+	iov[0].iov_len = L;
+	nni_aio_set_iov(&ua, 1, iov);
+	f->asize = ND(usz);
+	ASSUME(f->asize >= L); /* a buffer of the right size is already attached: allocation is C20's subject */
+	f->adata = f->buf = small;
+#else
+	static u8 data[TXLEN + 1];
+	ws->server = false;
+	L          = TXLEN;
+	for (int i = 0; i < TXLEN; i++)
+		data[i] = ND(u8);
+	size_t cut = CUT; /* concrete: a symbolic split makes the second iov a symbolic-offset pointer */
+	ws->fragsize = 0; /* the fragment-size policy is PREPTX 1's subject; here the lengths stay concrete */
+	iov[0].iov_buf = data;
+	iov[0].iov_len = cut;
+	iov[1].iov_buf = data + cut;
+	iov[1].iov_len = L - cut;
+	nni_aio_set_iov(&ua, 2, iov);
+	env_random_value = ND(u32);
+#endif
+	size_t elen   = L;
+	bool   efinal = true;
+	if (L > ws->fragsize && ws->fragsize > 0) {
+		elen   = ws->fragsize;
+		efinal = ws->isstream;
+	}
+	int rv = ws_frame_prep_tx(ws, f);
+	CHECK(rv == 0, "frame prepared");
+	CHECK(f->len == elen, "payload length is the data length limited by the fragment size");
+	CHECK(f->final == efinal, "FIN: whole remainder fits, or stream mode sends one frame per write");
+	int eop = cnt == 0 ? (ws->send_text ? WS_TEXT : WS_BINARY) : WS_CONT;
+	CHECK((int) f->op == eop, "first frame of a message is TEXT/BINARY, later ones CONTINUATION");
+	CHECK(f->head[0] == (u8) (eop | (efinal ? 0x80 : 0)), "first header byte: FIN, no RSV bits, opcode");
+	size_t ehl;
+	u8     mbit = ws->server ? 0 : 0x80;
+	if (elen < 126) {
+		CHECK(f->head[1] == (u8) (mbit | elen), "7-bit length form for payloads below 126");
+		ehl = 2;
+		WITNESS("short frame");
+	} else if (elen < 65536) {
+		CHECK(f->head[1] == (u8) (mbit | 126) && f->head[2] == (u8) (elen >> 8) && f->head[3] == (u8) elen, "16-bit big-endian length form for 126..65535");
+		ehl = 4;
+		WITNESS("medium frame");
+	} else {
+		CHECK(f->head[1] == (u8) (mbit | 127), "64-bit length form from 65536");
+		for (int i = 0; i < 8; i++)
+			CHECK(f->head[2 + i] == (u8) ((u64) elen >> (56 - 8 * i)), "64-bit length is big endian");
+		ehl = 10;
+		WITNESS("long frame");
+	}
+#if PREPTX == 1
+	CHECK(f->hlen == ehl && !f->masked, "server frames are not masked");
+	CHECK(h_copied == elen, "exactly the payload is copied into the frame");
+#else
+	CHECK(f->hlen == ehl + 4 && f->masked, "client frames are masked");
+	for (int i = 0; i < 4; i++) {
+		CHECK(f->head[ehl + i] == f->mask[i], "mask key follows the length");
+		CHECK(f->mask[i] == (u8) (env_random_value >> (24 - 8 * i)), "mask key is the random value");
+	}
+	for (size_t i = 0; i < TXLEN; i++)
+		if (i < elen)
+			CHECK(f->buf[i] == (u8) (data[i] ^ f->mask[i % 4]), "payload is the data XOR the mask key, in order across the iov boundary");
+#endif
+	WITNESS("end");
+}
+#elif defined(FINISH)
 /* C16 (ii) reassembly + C20: NF data frames (payloads symbolic, 2 bytes each)
  * are queued, a receiver waits: the delivered message is their concatenation;
  * with the message allocation failing (FAILMSG) the receive fails cleanly with
